@@ -9,7 +9,7 @@
    declared attribute_length is the length of the body that follows (and the grammar of a parsed
    body consumes exactly that), flag attributes are empty, names resolve in the pool, no
    insert_if_empty slot is filled twice, at most one Record attribute. *)
-From FB Require Import C17.Model C17.AttrTable C17.Theory C17.Theory2 C17.Theory3 C17.Theory4 C17.Theory5.
+From FB Require Import C17.Model C17.AttrTable C17.Theory C17.Theory2 C17.Theory3 C17.Theory4 C17.Struct C17.Theory5 C17.Theory6 C17.Theory7.
 
 (* The attribute dispatch tables that the translator reads off duke/src/class_reader.rs at every
    check: every arm that parses an attribute is preceded by a skip arm guarded by the interest flag
@@ -60,9 +60,64 @@ Theorem C17_concat : forall T g (items : list item),
 Proof. exact concat. Qed.
 Print Assumptions C17_concat.
 
+(* Th 3 (projection): what a masked / declining visitor receives is the projection of what the
+   full accepting visitor [v_full] receives from the same bytes — same order; [project] filters
+   attribute events by the flag that governs their attribute, replaces the contents of a declined
+   member / record component / Code by "declined", and is local: what it does to the k-th member
+   depends only on the visitor's answers for that member, so declining an item never disturbs
+   the items after it.  Both reads stop at the same place. *)
+Theorem C17_partial_is_projection : forall T g c h,
+  tables_ok T = true -> wf g T c h ->
+  forall v rest,
+    exists t_full,
+      read_class g T (v_full T) (enc c ++ rest) = Ok (t_full, rest)
+      /\ read_class g T v (enc c ++ rest) = Ok (project T v t_full, rest).
+Proof. exact partial_is_projection. Qed.
+Print Assumptions C17_partial_is_projection.
+
+(* "declining an item never disturbs the items after it": what the projection does to a member's
+   event depends only on the visitor's answers for that very member (accept/decline, its mask, its
+   visit_code answer); two visitors that differ in what they answer for other members receive the
+   same events for this one. *)
+Theorem C17_projection_local : forall T v1 v2 e,
+  v_class v1 = v_class v2 -> (forall k, v_rc v1 k = v_rc v2 k) ->
+  answers_at v1 e = answers_at v2 e ->
+  proj_member T v1 e = proj_member T v2 e.
+Proof. exact projection_local. Qed.
+Print Assumptions C17_projection_local.
+
+(* the same on the specification: [spec_class] computes the events from the class structure *)
+Theorem C17_spec_projection : forall T g c h v,
+  tables_ok T = true -> wf g T c h ->
+  spec_class T v h c = project T v (spec_class T (v_full T) h c).
+Proof. exact spec_projection. Qed.
+Print Assumptions C17_spec_projection.
+
 (* the two theorems for the tables of the code as it is now *)
 Theorem C17_position_generated : forall g c h,
   wf g tables c h ->
   forall v rest, read_class g tables v (enc c ++ rest) = Ok (spec_class tables v h c, rest).
 Proof. exact (fun g c h => position_independent tables g c h generated_tables_ok). Qed.
 Print Assumptions C17_position_generated.
+
+(* Th 1 and Th 3 with decidable hypotheses only: for the grammar of the correspondence run
+   ([g_len]: a parsed body consumes exactly attribute_length) and the generated tables, [wf_b]
+   is a boolean function of the class structure; the correspondence run evaluates
+   [stream_wf tables] (decode, re-encode, wf_b) on every stream it compares. *)
+Theorem C17_position_decidable : forall c, wf_b tables c = true ->
+  forall v rest, read_class g_len tables v (enc c ++ rest) = Ok (spec_class tables v (header_of c) c, rest).
+Proof. exact position_decidable. Qed.
+Print Assumptions C17_position_decidable.
+
+Theorem C17_projection_decidable : forall c, wf_b tables c = true ->
+  forall v rest,
+    read_class g_len tables v (enc c ++ rest)
+    = Ok (project tables v (spec_class tables (v_full tables) (header_of c) c), rest).
+Proof. exact projection_decidable. Qed.
+Print Assumptions C17_projection_decidable.
+
+(* non-vacuity: a javac-17 class file with fields, methods, code and debug tables decodes to a
+   structure that satisfies wf_b and encodes back to the same bytes *)
+Theorem C17_examples : nonvacuous.
+Proof. exact nonvacuous_holds. Qed.
+Print Assumptions C17_examples.
